@@ -46,7 +46,14 @@ type c03Event struct {
 	payload string
 	ms      int  // timestamp offset in milliseconds (events carry different times)
 	err     bool // logged at ERROR instead of INFO (the .wf file of a rolling-file logger with separate=true)
+	direct  bool // published through the public GetEvent / Logger.Append path with a Fields slice the caller owns and keeps
 }
+
+// the caller-owned field slice of the direct events (rebuilt for every execution) and the logger they go to
+var (
+	c03Own    []log.Field
+	c03Direct *log.SyncLogger
+)
 
 type c03TimeKey struct{}
 
@@ -60,6 +67,14 @@ func c03Payload(i int, long bool) string {
 // c03Emit is the single call site of every event (so file:line is the same in the reference run).
 func c03Emit(ev c03Event) {
 	ctx := context.WithValue(context.Background(), c03TimeKey{}, ev.ms)
+	if ev.direct {
+		e := log.GetEvent()
+		e.Level, e.Time, e.Tag, e.File, e.Line = log.InfoLevel, c03Time(ctx), "_c03_direct", "direct.go", 7
+		e.CtxString = ev.payload
+		e.Fields = c03Own // the caller keeps and reuses this slice; the library may read it, not keep or write it
+		c03Direct.Append(e)
+		return
+	}
 	// scalar, array and nested-object values: every encoder path writes into the event's own buffer
 	fs := []log.Field{log.String("k", ev.payload), log.Int("n", len(ev.payload)),
 		log.Ints("ids", []int{len(ev.payload), ev.ms}), log.Strings("who", []string{ev.payload[:3]}),
@@ -153,6 +168,15 @@ func (c c03Cfg) run(threads [][]c03Event, obs *c03Obs) {
 		} else {
 			log.BufferCap.Store(256)
 		}
+		// (longer than the field list of the entry-point events: whoever appends those into this array fits)
+		c03Own = []log.Field{log.String("kind", "heartbeat"), log.Ints("v", []int{1, 2}), log.Int("seq", 7), log.Bool("up", true),
+			log.String("who", "w2"), log.Float("load", 0.5), log.Strings("tags", []string{"x"}), log.Nil("none")}
+		var lay log.Layout = &log.TextLayout{BaseLayout: log.BaseLayout{FileLineLength: 48}}
+		if c.layout == "JSONLayout" {
+			lay = &log.JSONLayout{BaseLayout: log.BaseLayout{FileLineLength: 48}}
+		}
+		c03Direct = &log.SyncLogger{LoggerBase: log.LoggerBase{Name: "direct", Level: fullRange},
+			AppenderRefs: log.AppenderRefs{AppenderRefs: []*log.AppenderRef{{Appender: &log.ConsoleAppender{Layout: lay}, Level: fullRange}}}}
 	})
 	if obs.err != "" {
 		return
@@ -332,5 +356,27 @@ func init() {
 				})
 			}
 		}
+	}
+}
+
+// The public low-level path next to the entry points: one goroutine publishes events it has built itself
+// (GetEvent, its OWN field slice which it keeps and reuses, Logger.Append on a synchronous logger), another
+// logs through log.Info. Every line equals the line of its event formatted alone - in particular the
+// library neither keeps nor writes the slice it was lent.
+func init() {
+	for _, layout := range []string{"TextLayout", "JSONLayout"} {
+		layout := layout
+		register("C03", fmt.Sprintf("c03/direct-append+entry-points/%s", layout), "qt", func(tier string) *zzvrt.Scenario {
+			b := zzvrt.Bounds{Preempt: 2, Horizon: 5000}
+			if tier == "thorough" {
+				b.Preempt = 3
+				b.Env[zzvrt.SeamPoolMiss] = 1
+			}
+			threads := [][]c03Event{
+				{{payload: "direct-d0", direct: true}, {payload: "direct-d1", direct: true, ms: 7}, {payload: "direct-d2", direct: true}},
+				{{tag: 1, payload: c03Payload(1, false)}, {tag: 1, payload: c03Payload(3, false), ms: 7}},
+			}
+			return c03Scenario(c03Cfg{layout: layout, sink: "console", threads: threads}, b)
+		})
 	}
 }
